@@ -44,6 +44,8 @@ def configs(tier):
     for prog in wiring.PROGS:
         for order in ((0, 3, 5) if tier == "quick" else range(6)):
             out.append(dict(group="wiring", prog=prog, order=order))
+        if prog == "call-pedigree":  # mixed ploidies AND a masked reference: the padded pedigree trace is relabelled per individual
+            out.append(dict(group="wiring", prog=prog, order=3, masked=True))
         if prog != "call-pedigree":  # two samples of one ploidy that differ in inbreeding / reads / temperatures (anything keyed by ploidy would mix them up)
             out.append(dict(group="wiring", prog=prog, order=3, same_ploidy=True))
     if tier != "quick":
